@@ -192,7 +192,7 @@ func stEntries(art string, h byte, all bool) []string {
 func TestC01(t *testing.T) {
 	rep := NewReport("C01")
 	defer rep.Finish(t)
-	rep.Rule = "every document emitted by spec/SigTree.tla (final abstract tree of a base IdP message after <= K attacker productions) is built concretely from the tree (genuine nodes and signatures copied from a message the harness signed with goxmldsig, forged nodes with another identity, attacker signatures made with the attacker's / the encryption-only key bottom-up, KeyInfo written as the SEQUENCE the tree gives - X509Data elements with several certificates in order (the signer's, any other known one, an element that holds none, X509SubjectName), KeyValue elements, or no KeyInfo -, for artifact deliveries the SOAP envelope built from the tree too (soap:Header / second soap:Body / siblings holding forged, copied or moved ArtifactResponse / Response / Assertion elements before and after the signed one), optional encryption to the SP certificate, seed-chosen comment / white-space / prefix variants) and run through ParseXMLResponse, ParseResponse (POST), ParseXMLArtifactResponse or ParseResponse with SAMLart (the SP fetches the SOAP reply itself over sp.HTTPClient) on a ServiceProvider configured as the run's TRUST CONFIGURATION says (the table of configurations is emitted by the specification: key descriptors of the IdP metadata with use / EncryptionMethod / several certificates / several role descriptors / unparsable certificates, pinned IDPCertificate, IDPCertificateFingerprint + algorithm, each crossed with what the metadata lists at the same time; seed-chosen line-wrapped certificates and metadata passed through XML); the verdict is compared with the model's, and the returned assertion's identity-bearing content with the ledger of what the harness signed: it must have been signed with a key in TrustedKeys(configuration) as the statement defines it (pinned => only the pinned certificate, fingerprint => only a certificate with that fingerprint, else the signing-use certificates of the metadata); non-trivial = MustAccept or MustReject by the statement"
+	rep.Rule = "every document emitted by spec/SigTree.tla (final abstract tree of a base IdP message after <= K attacker productions) is built concretely from the tree (genuine nodes and signatures copied from a message the harness signed with goxmldsig, forged nodes with another identity, attacker signatures made with the attacker's / the encryption-only key bottom-up, KeyInfo written as the SEQUENCE the tree gives - X509Data elements with several certificates in order (the signer's, any other known one, an element that holds none, X509SubjectName), KeyValue elements, or no KeyInfo -, for artifact deliveries the SOAP envelope built from the tree too (soap:Header / second soap:Body / siblings holding forged, copied or moved ArtifactResponse / Response / Assertion elements before and after the signed one), optional encryption to the SP certificate, seed-chosen comment / white-space / prefix variants; assertions carry the ACCEPTABILITY the tree gives them: besides the message the attacker holds assertions the IdP genuinely signed that this SP refuses - B1 issued for another service provider (Recipient / audience, which of them chosen by the seed), B2 three days old - and places sequences of them and of forged assertions (acceptable apart from the missing signature, or not even that), plaintext or encrypted to the SP, before, after or instead of the message's assertion; a KeyInfo may hold the attacker's LOOK-ALIKE certificate, made at run time: his key, subject and SubjectKeyIdentifier copied from a trusted certificate that carries that extension (idp1k, a second certificate of the IdP key made at run time, which the SP holds in its metadata, pinned or by fingerprint and the IdP then sends)) and run through ParseXMLResponse, ParseResponse (POST), ParseXMLArtifactResponse or ParseResponse with SAMLart (the SP fetches the SOAP reply itself over sp.HTTPClient) on a ServiceProvider configured as the run's TRUST CONFIGURATION says (the table of configurations is emitted by the specification: key descriptors of the IdP metadata with use / EncryptionMethod / several certificates / several role descriptors / unparsable certificates, pinned IDPCertificate, IDPCertificateFingerprint + algorithm, each crossed with what the metadata lists at the same time; seed-chosen line-wrapped certificates and metadata passed through XML); the verdict is compared with the model's, and the returned assertion's identity-bearing content with the ledger of what the harness signed: it must have been signed with a key in TrustedKeys(configuration) as the statement defines it (pinned => only the pinned certificate, fingerprint => only a certificate with that fingerprint, else the signing-use certificates of the metadata; a signature verifies under a certificate when it was made with the key that certificate certifies; nothing a message carries or resembles adds to the set); non-trivial = MustAccept or MustReject by the statement"
 	oldNow := saml.TimeNow
 	defer func() { saml.TimeNow = oldNow }()
 	now := c02Now.Add(time.Duration(seedVal()%1000) * time.Hour)
@@ -206,16 +206,24 @@ func TestC01(t *testing.T) {
 	if rep.Broken != "" {
 		return
 	}
+	if msg := stCheckGeneratedCerts(); msg != "" {
+		rep.Break("run-time certificates: %s", msg)
+		return
+	}
 	// vector files: the attack exploration under a few trust configurations, and the trust configurations
 	// (every one of them x the IdP's signing key) under one attacker step / two steps of the key family
 	// and the SOAP envelope of the artifact back channel under one configuration of each kind
-	fams := []stFamily{{file: "vectors.ndjson", name: "tree"}, {file: "vectors_tc.ndjson", name: "trustcfg", allRunsUpTo: 0, share: 10},
-		{file: "vectors_env.ndjson", name: "envelope", allRunsUpTo: 0, share: 2}}
+	fams := []stFamily{{file: "vectors.ndjson", name: "tree"}, {file: "vectors_tc.ndjson", name: "trustcfg", allRunsUpTo: 0, share: 12},
+		{file: "vectors_env.ndjson", name: "envelope", allRunsUpTo: 0, share: 2},
+		// sibling sequences (other IdP-signed assertions that are not acceptable here, forged ones)
+		{file: "vectors_sib.ndjson", name: "siblings", allRunsUpTo: 0, share: 2}}
 	if thorough() {
 		fams = []stFamily{{file: "vectors.ndjson", name: "tree", allRunsUpTo: 1, share: 3}, {file: "vectors3.ndjson", name: "tree", allRunsUpTo: 1, share: 3},
 			{file: "vectorsim.ndjson", name: "tree", allRunsUpTo: 1, share: 3},
 			{file: "vectors_tc.ndjson", name: "trustcfg", allRunsUpTo: 0, share: 3}, {file: "vectors_tc2.ndjson", name: "trustcfg", allRunsUpTo: 0, share: 6},
-			{file: "vectors_env.ndjson", name: "envelope", allRunsUpTo: 1, share: 1}, {file: "vectors_env2.ndjson", name: "envelope", allRunsUpTo: 1, share: 2}}
+			{file: "vectors_env.ndjson", name: "envelope", allRunsUpTo: 1, share: 1}, {file: "vectors_env2.ndjson", name: "envelope", allRunsUpTo: 1, share: 2},
+			{file: "vectors_sib.ndjson", name: "siblings", allRunsUpTo: 1, share: 1}, {file: "vectors_siba.ndjson", name: "siblings", allRunsUpTo: 0, share: 2},
+			{file: "vectors_sib2.ndjson", name: "siblings", allRunsUpTo: 1, share: 2}}
 	}
 	seen := map[string]bool{}
 	var vecs []*stVec
@@ -228,6 +236,7 @@ func TestC01(t *testing.T) {
 				rep.Break("bad vector in %s: %v", f.file, err)
 				return
 			}
+			v.T.normalise()
 			h := f.name + v.treeHash()
 			if seen[h] {
 				continue
@@ -279,6 +288,13 @@ func TestC01(t *testing.T) {
 			if stUnverifiedResponseBeforeVerified(c.Tree) {
 				stats["envelope_other_response_before_the_signed_artifactresponse"]++
 			}
+			// counted by what the vector REQUIRES, never by what was observed
+			if (kind == "metadata" || kind == "pinned") && stTrusts(c.Cfg, "Kidp1k") && stOutsiderSendsLookalike(c.Tree) {
+				stats["lookalike_on_an_outsiders_signature_while_the_imitated_certificate_is_trusted_by_"+kind]++
+			}
+		}
+		if stTrusts(c.Cfg, stModelCertOf(c.GKey)) && stSignedUnacceptableThenForged(c.Tree) {
+			stats["siblings_signed_unacceptable_then_forged_acceptable_signature_required"]++
 		}
 		if c.Class == "MustReject" && c.Cfg.Pin != "-" && c.GKey != stKeyNameOr(c.Cfg.Pin) && stListedForSigning(c.Cfg, c.GKey) && c.Family == "trustcfg" {
 			stats["pinned_but_signed_by_a_key_the_metadata_lists"]++
@@ -296,6 +312,7 @@ func TestC01(t *testing.T) {
 			bump("skipped_artifact_quick")
 			return
 		}
+		lookDoc := stHasKeyInfoItem(v.T, "Klook")
 		rng := newRand("c01/" + v.fam.name + th)
 		reps := 1
 		if v.N == 0 {
@@ -314,10 +331,12 @@ func TestC01(t *testing.T) {
 				// documents with few attacker steps run under every configuration of their file; deeper ones
 				// under a share of them (rotating with the document hash, so that every configuration sees that
 				// share of the documents)
-				if v.N > v.fam.allRunsUpTo && v.fam.share > 1 && (int(hb)+ri)%v.fam.share != 0 {
+				// (a document that sends the look-alike certificate also runs under every configuration that
+				// trusts the certificate it imitates)
+				cfg := cfgs[run.T]
+				if v.N > v.fam.allRunsUpTo && v.fam.share > 1 && (int(hb)+ri)%v.fam.share != 0 && !(lookDoc && stTrusts(cfg, "Kidp1k")) {
 					continue
 				}
-				cfg := cfgs[run.T]
 				g := stKeyName(run.G)
 				b := bases.get(v.B, g)
 				if docs[g] == nil {
@@ -366,6 +385,14 @@ func TestC01(t *testing.T) {
 	}
 	if stats["fingerprint_outsider_signature_whose_keyinfo_also_lists_the_trusted_certificate"] == 0 {
 		rep.Break("vacuous: no outsider's signature whose KeyInfo lists several certificates, the trusted one among them, under a fingerprint configuration")
+	}
+	for _, kind := range []string{"metadata", "pinned"} {
+		if stats["lookalike_on_an_outsiders_signature_while_the_imitated_certificate_is_trusted_by_"+kind] == 0 {
+			rep.Break("vacuous: no MustReject document with an outsider's signature whose KeyInfo sends the look-alike certificate under a %s configuration that trusts the certificate it imitates", kind)
+		}
+	}
+	if stats["siblings_signed_unacceptable_then_forged_acceptable_signature_required"] == 0 {
+		rep.Break("vacuous: no unsigned Response in which an assertion the IdP signed with a trusted key, but not acceptable to this SP, is processed before a forged acceptable one")
 	}
 	if stats["envelope_other_response_before_the_signed_artifactresponse"] == 0 {
 		rep.Break("vacuous: no SOAP envelope in which another Response precedes the signed ArtifactResponse")
@@ -465,6 +492,115 @@ func stUnverifiedResponseBeforeVerified(n *stNode) bool {
 		return false
 	}
 	return walk(n, false)
+}
+
+// stHasKeyInfoItem: some Signature's KeyInfo holds that item
+func stHasKeyInfoItem(n *stNode, item string) bool {
+	if n == nil {
+		return false
+	}
+	for _, g := range n.Ki {
+		for _, it := range g {
+			if it == item {
+				return true
+			}
+		}
+	}
+	for _, ch := range n.Ch {
+		if stHasKeyInfoItem(ch, item) {
+			return true
+		}
+	}
+	return false
+}
+
+// stOutsiderSendsLookalike: a signature made with the attacker's key whose first KeyInfo certificate is the
+// look-alike (his key, subject and SubjectKeyIdentifier of Kidp1k)
+func stOutsiderSendsLookalike(n *stNode) bool {
+	if n == nil {
+		return false
+	}
+	if n.K == "Sig" && n.Key == "Katt" {
+		for _, g := range n.Ki {
+			for _, it := range g {
+				if it == "rsa" || it == "subj" {
+					continue
+				}
+				if it == "Klook" {
+					return true
+				}
+				goto next
+			}
+		}
+	}
+next:
+	for _, ch := range n.Ch {
+		if stOutsiderSendsLookalike(ch) {
+			return true
+		}
+	}
+	return false
+}
+
+// stSignedUnacceptableThenForged: a Response in the SAML namespace without Signature child (and not inside a
+// signed ArtifactResponse), among whose candidates in PROCESSING order - the plaintexts of its EncryptedAssertion
+// children first, then its Assertion children - an assertion the IdP signed (untouched, signature in place) that
+// is not acceptable to this SP comes before a forged unsigned one that is acceptable
+func stSignedUnacceptableThenForged(n *stNode) bool {
+	if n == nil {
+		return false
+	}
+	hasSig := func(x *stNode) bool {
+		for _, ch := range x.Ch {
+			if ch.K == "Sig" {
+				return true
+			}
+		}
+		return false
+	}
+	if n.K == "ArtResp" && hasSig(n) {
+		return false
+	}
+	if n.K == "Resp" && n.Ns && !hasSig(n) {
+		var cand []*stNode
+		for _, ch := range n.Ch {
+			if ch.K == "EncAssn" && ch.Ns && len(ch.Ch) == 1 {
+				cand = append(cand, ch.Ch[0])
+			}
+		}
+		for _, ch := range n.Ch {
+			if ch.K == "Assn" && ch.Ns {
+				cand = append(cand, ch)
+			}
+		}
+		vouched := false
+		for _, a := range cand {
+			if a.K != "Assn" || !a.Ns {
+				continue
+			}
+			if a.Org == "g" && !a.Ed && a.Acc != "" && len(a.Ch) == 1 && a.Ch[0].K == "Sig" && a.Ch[0].Ns && a.Ch[0].Key == "G" && a.Ch[0].Cov == a.ID && stKIAsSent(a.Ch[0].Ki) {
+				vouched = true
+			} else if vouched && a.Org == "f" && a.Acc == "" && !hasSig(a) {
+				return true
+			}
+		}
+	}
+	for _, ch := range n.Ch {
+		if ch.K != "EncAssn" && ch.K != "Sig" && stSignedUnacceptableThenForged(ch) {
+			return true
+		}
+	}
+	return false
+}
+
+// stModelCertOf: the model name of a harness certificate
+func stModelCertOf(harness string) string {
+	for _, m := range []string{"Kidp1", "Kidp1k", "Kidp2", "Kenc", "Katt", "Klook"} {
+		if stKeyName(m) == harness {
+			return m
+		}
+	}
+	return harness
 }
 
 func stCfgKind(c *stTrustCfg) string {
